@@ -317,6 +317,9 @@ def rules(ctx: Ctx) -> None:
     # ---- R07.9 (= R08.2): a name that is looked up among the CTE aliases goes through the normaliser first - compared as written (or merely
     # lower-cased) a quoted reference to a lower-case CTE misses it and is reported as a table
     _common.import_rules(ctx, "C08", {"R08.2": "R07.9"})
+    # ---- R07.12 (= R16.10): a name is looked up among names of its own spelling state - a qualifier as written is not found among normalised names once
+    # it is written in upper case or quoted
+    _common.import_rules(ctx, "C16", {"R16.10": "R07.12"})
 
     # ---- R07.10 SQL text is never cut, searched or compared at a literal blank: between two words of a keyword there may be a tab or a line break
     n_blank = 0
